@@ -94,9 +94,16 @@ def crash_result(e):
 
 
 def execute_isolated(prop, spec, workdir):
+    """One complete evaluation of a spec: execution in a pristine forked child and, when the property asks
+    for it (unpinned RNG runs that violated), a second pinned execution in another pristine child."""
     from . import props
+    P = props.PROPS[prop]
     try:
-        return run_isolated(props.PROPS[prop]["execute"], spec, workdir)
+        res = run_isolated(P["execute"], spec, workdir)
+        if res.get("rerun_pinned") and P.get("classify"):
+            res2 = run_isolated(P["execute"], dict(spec, pinned=True, fresh=False, _classifying=True), workdir + "-p")
+            res = P["classify"](spec, res, res2)
+        return res
     except ChildDied as e:
         return crash_result(e)
 
@@ -110,12 +117,9 @@ def _worker_batch(args):
     wd = os.path.join(base, "w%d" % os.getpid())
     for run in runs:
         spec = P["gen"](seed, run, tier)
-        try:
-            res = run_isolated(P["execute"], spec, os.path.join(wd, "r%d" % run))
-        except ChildDied as e:
-            # the simulated process itself crashed (abort/segfault inside a C library, os._exit ...):
-            # that is an outcome of the run, reported like any other violation and replayable
-            res = crash_result(e)
+        # a simulated process that crashes (abort/segfault inside a C library, os._exit ...) is an outcome of
+        # the run, reported like any other violation and replayable (see execute_isolated)
+        res = execute_isolated(prop, spec, os.path.join(wd, "r%d" % run))
         c = {"run": run, "digest": res["digest"], "violation": res.get("violation"), "stats": res.get("stats", {}),
              "fired": res.get("fired", {}), "states": res.get("states", []), "nontrivial": res.get("nontrivial", False),
              "ilv": res.get("ilv"), "steps": res.get("steps", 0), "mode": res.get("mode"),
